@@ -2,6 +2,7 @@ import Tmv.Lemmas.SyncNet
 import Tmv.Lemmas.VoteReachRun
 import Tmv.Lemmas.GoodRound
 import Tmv.Lemmas.SyncClosure
+import Tmv.Lemmas.CommitInv
 /-! # C03 — termination: correct nodes decide once the network behaves  (**partial**)
 
 Models: `Tmv.Cons` (one node, `consensus/state.go` statement by statement; tied to the real
@@ -20,26 +21,46 @@ What is proved here, each for EVERY configuration / state / schedule it quantifi
   the commit step waiting for the block while keeping the commit round
   (`commit_step_waits_for_block`, `commit_for_held_block_is_final`), the unlock rule
   (`unlock_on_later_polka`, `lock_kept_while_behind`);
-* the three stages of a good round at one node (`good_round_prevote_stage`,
-  `good_round_precommit_stage`, `good_round_commit_stage`): complete valid proposal ⇒ prevote for it;
-  +2/3 prevotes for it ⇒ lock and precommit; +2/3 precommits ⇒ decision in that round;
+* **vote-set arithmetic** (step 1 of the termination plan): after ANY input list every vote set is
+  well-formed (`vote_sets_well_formed`), a delivered vote is recorded and stays recorded
+  (`delivered_vote_recorded`), votes carrying the quorum yield the recorded +2/3 majority whatever
+  else was delivered and in whatever order (`votes_yield_majority`), votes for anything of more than
+  2/3 yield `hasTwoThirdsAny` (`votes_yield_any`);
+* **one node, one good round** (step 2): the three stage theorems (`good_round_prevote_stage`,
+  `good_round_precommit_stage`, `good_round_commit_stage`) composed over the internal queue and the
+  vote sets into `good_round_decides_node` (proposal and block, then ANY interleaving of the prevotes
+  and precommits of the quorum ⇒ decision in that round); why the proposal and the block must come
+  first or be re-delivered: `block_before_header_is_lost`, `proposal_after_block_waits_for_timeout`;
 * for every schedule of the network model (any interleaving of deliveries, faulty messages, claims,
-  timeouts, closures): `decisions_are_final`, `log_only_grows`,
-  `commit_waiting_node_decides_on_delivery` (a node still in the commit step decides when the block
-  is delivered and keeps the decision in every continuation); the discipline of the synchronous
-  suffix (`suffix_timeout_needs_closed_net`, `suffix_timeouts_in_time_order`);
-* `termination_fails_after_leaving_commit_step`: the full statement `Termination` is FALSE of the
-  model (and of the code: the same schedule is corpus/C03/commit-seen-then-round-skip.ops and is
-  replayed on real nodes on every run — known finding): a node that has seen a commit without the
-  block is pulled out of the commit step by +2/3 prevotes of the next round and never decides.
+  timeouts, closures): `decisions_are_final`, `log_only_grows`, `nodes_are_runs` (every node of the
+  net is the node model run on some input list, so every single-node theorem applies),
+  `net_vote_sets_well_formed`, `commit_waiting_node_decides_on_delivery`,
+  `quorum_and_block_decide` / `net_quorum_and_block_decide` (any order: not an orphan + precommit
+  quorum recorded + block held ⇒ decided; universal commit-path invariants `Cons.KI`); what the
+  idealised gossip
+  achieves: `closure_records_votes`, `closure_spreads_majority` (after a converged closure every
+  logged vote / every +2/3 majority in the log is recorded at every node that can take it); the
+  discipline of the synchronous suffix (`suffix_timeout_needs_closed_net`,
+  `suffix_timeouts_in_time_order`);
+* the full statement `Termination` is FALSE of the model and of the code, for two reasons, both
+  kernel-checked on the model and replayed on real nodes on every run (known findings):
+  `termination_fails_after_leaving_commit_step` (a node that has seen a commit without the block is
+  pulled out of the commit step by +2/3 prevotes of the next round and never decides) and
+  `stale_lock_survives_its_polka` / `stale_lock_reachable` / `closure_single_lock_fails` (a lock
+  outlives its releasing polka when the polka is completed before the node reaches its round: the
+  unlock rule is only evaluated when a prevote of that round is added).
 
-What is NOT proved (stated as definitions below, with what is missing): `closure_single_lock`,
-`good_round_decides`, `bad_round_harmless` and `Termination` under `NoOrphanCommit` and
-`FairSchedule`. The composition of the three stage theorems over the internal queue and the vote-set
-arithmetic ("the votes of validators with > 2/3 of the power, delivered in any order to a node that
-may already hold conflicting votes of faulty validators, produce the recorded majority") is the
-missing piece; the Go stream's oracle checks the bound of `Termination` on every generated run
-instead. -/
+What is NOT proved (stated as definitions below, with what is missing): `good_round_decides` and
+`bad_round_harmless` at network level and `Termination` under `NoOrphanCommit`, `NoStaleLock` and
+`FairSchedule` (`TerminationRemaining`). `closure_single_lock` is false as stated
+(`ClosureSingleLock`, `closure_single_lock_fails`); under `NoStaleLock` it is open. Missing pieces:
+(a) that `closure` converges within its fuel on reachable nets; (b) the lift of C02's
+one-vote-per-round to the net's log (C01's `log_behaved`) to discharge the `only` hypotheses of
+`closure_spreads_majority` for correct validators; (c) the round-synchronisation argument (after
+closure all correct nodes are within one round of each other and meet in the next round before any
+propose timeout of it fires — this is where the virtual-time order of `syncRun` enters); (d) the
+composition of `good_round_decides_node` over all correct nodes of a closed net. The Go stream's
+oracle checks the bound of `Termination` on every generated run instead. -/
 namespace Tmv.Props.C03
 open Tmv.Cons Tmv.Sync
 
@@ -248,6 +269,23 @@ theorem good_round_decides_node (c : Cfg) (me : Nat) (s : NodeState) (r b : Nat)
     (run c s ([Input.proposal ⟨r, b, -1, pr⟩, Input.blockComplete b] ++ votes)).decided = some (b, (r : Int)) :=
   Cons.good_round_decides_node c me s r b Q1 Q2 hs pr hpr hfresh votes hperm
 
+/-- **not an orphan + precommit quorum recorded + block held ⇒ decided** — after ANY input list in
+any order: the node is not halted, is in the commit step if it has ever entered it (`hnorphan`, the
+state form of `NoOrphanCommit`), its precommits of round `r` have the recorded +2/3 majority for `b`,
+the round it committed in carries the same block (`hcv`: it is `r` itself, or agreement gives it), and
+it holds `b`. Then it has decided `b`. (Universal invariants behind it, `Cons.KI`: the proposal block
+is always held with its complete part set; a node in the commit step never holds the committed block
+undecided; a recorded precommit majority for a block implies the node went through `enterCommit`.) -/
+theorem quorum_and_block_decide (c : Cfg) (is : List Input) (r b : Nat)
+    (hh : (run c .init is).halted = false)
+    (hnorphan : 0 ≤ (run c .init is).commitRound → (run c .init is).step = .commit)
+    (hm : maj23Of ((run c .init is).votes.getVoteSet (r : Int) .precommit) = some (some b))
+    (hcv : ∀ b', maj23Of ((run c .init is).votes.getVoteSet (run c .init is).commitRound .precommit) = some (some b') →
+      b' = b)
+    (hb : (run c .init is).proposalBlock = some b) :
+    (run c .init is).decided = some (b, (run c .init is).commitRound) :=
+  Cons.quorum_and_block_decide is r b hh hnorphan hm hcv hb
+
 /-! ### the network, every schedule -/
 
 /-- **decisions are final**: whatever the scheduler and the faulty validators do (any list of
@@ -344,6 +382,22 @@ theorem closure_spreads_majority (c : SCfg) (correct : List Nat) (ops : List Op)
   Sync.closure_spreads_majority c _ hconv (net_vote_sets_well_formed c correct ops) i nd hi r t b Q hn hlt
     hlog hself hlive ht honly hp
 
+/-- **the same for every node of every reachable net** (commit half of `good_round_decides` at
+network level, every schedule): a correct node that is not halted, not an orphan, has the recorded
+precommit majority for `b` in some round, whose commit round carries `b`, and that holds `b`, has
+decided `b`. -/
+theorem net_quorum_and_block_decide (c : SCfg) (correct : List Nat) (ops : List Op) (nd : Node)
+    (hm : nd ∈ ((Net.init correct).run c ops).nodes) (r b : Nat)
+    (hh : nd.s.halted = false)
+    (hnorphan : 0 ≤ nd.s.commitRound → nd.s.step = .commit)
+    (hq : maj23Of (nd.s.votes.getVoteSet (r : Int) .precommit) = some (some b))
+    (hcv : ∀ b', maj23Of (nd.s.votes.getVoteSet nd.s.commitRound .precommit) = some (some b') → b' = b)
+    (hb : nd.s.proposalBlock = some b) :
+    nd.s.decided = some (b, nd.s.commitRound) := by
+  obtain ⟨is, e⟩ := Sync.nodes_are_runs c correct ops nd hm
+  rw [e] at hh hnorphan hq hcv hb ⊢
+  exact Cons.quorum_and_block_decide is r b hh hnorphan hq hcv hb
+
 /-- the same for a synchronous suffix -/
 theorem decisions_are_final_in_suffix (c : SCfg) (net : Net) (moves : List Op) (i : Nat) (d : Nat × Int)
     (h : net.decidedAt i = some d) : (syncRun c net moves).decidedAt i = some d := by
@@ -394,12 +448,40 @@ being outside the commit step -/
 def NoOrphanCommit (net : Net) : Prop :=
   ∀ nd ∈ net.nodes, nd.s.decided = none → nd.s.halted = false → 0 ≤ nd.s.commitRound → nd.s.step = .commit
 
+/-- the node is locked on a block although it holds, for a round after its lock round that it has
+reached, a recorded +2/3 prevote majority for something else (executable) -/
+def hasStaleLock (s : NodeState) : Bool :=
+  match s.lockedBlock with
+  | none => false
+  | some b => (List.range (s.round + 1)).any fun q =>
+      decide (s.lockedRound < (q : Int)) &&
+      (match maj23Of (s.votes.prevotes (q : Int)) with
+       | some x => decide (x ≠ some b)
+       | none => false)
+
+/-- the hypothesis the second defect forces: no live correct node holds a lock that has outlived a
+releasing polka (`unlock_on_later_polka` was due but the rule was not evaluated) -/
+def NoStaleLock (net : Net) : Prop :=
+  ∀ nd ∈ net.nodes, nd.s.decided = none → nd.s.halted = false → hasStaleLock nd.s = false
+
+/-- `closure_single_lock` of DESIGN.md as a statement: after the synchrony point and closure all
+live correct nodes that are locked are locked on one block. FALSE of the code:
+`closure_single_lock_fails`. -/
+def ClosureSingleLock (sc : SCfg) (correct : List Nat) : Prop :=
+  3 * faultyPower sc.cfg correct < sc.cfg.total →
+  ∀ (pre : List Op) (nd nd' : Node) (b b' : Nat),
+    let net := syncRun sc ((Net.init correct).run sc pre) []
+    nd ∈ net.nodes → nd' ∈ net.nodes → nd.s.decided = none → nd'.s.decided = none →
+    nd.s.halted = false → nd'.s.halted = false →
+    nd.s.lockedBlock = some b → nd'.s.lockedBlock = some b' → b = b'
+
 /-- every validator with positive power is the proposer of some round in any window of `W` rounds -/
 def FairSchedule (c : Cfg) (W : Nat) : Prop :=
   ∀ v, v < c.n → 0 < c.power v → ∀ r, ∃ k, k < W ∧ c.proposer (r + k) = v
 
 /-- **what remains to be proved** (`termination_partial` of DESIGN.md, not a theorem here): under
-`FairSchedule W`, and with `NoOrphanCommit` holding in every net the suffix passes through, the
+`FairSchedule W`, and with `NoOrphanCommit` and `NoStaleLock` holding in every net the suffix passes
+through, the
 statement of `Termination` with `B = W + 1`. Its three lemmas, also unproved:
 `closure_single_lock` (after closure — and after every correct node has prevoted in the round of the
 highest polka, cf. `lock_kept_while_behind` — all locked correct nodes are locked on one block),
@@ -409,7 +491,7 @@ def TerminationRemaining (sc : SCfg) (correct : List Nat) (W : Nat) : Prop :=
   FairSchedule sc.cfg W → 3 * faultyPower sc.cfg correct < sc.cfg.total →
   ∀ (pre moves : List Op),
     let net := (Net.init correct).run sc pre
-    (∀ k, NoOrphanCommit (syncRun sc net (moves.take k))) →
+    (∀ k, NoOrphanCommit (syncRun sc net (moves.take k)) ∧ NoStaleLock (syncRun sc net (moves.take k))) →
     let net' := syncRun sc net moves
     (net'.allDecided = true ∨ net'.somePending = true) ∧
     net'.maxRound ≤ (syncRun sc net []).maxRound + (W + 1)
@@ -587,6 +669,84 @@ theorem stale_lock_survives_its_polka :
     Output.signVote .prevote 2 (some 0) ∈ (run exNode0 .init (exStaleLock ++ exStaleMore)).out := by
   decide
 
+/-- the prefix of corpus/C03/stale-lock-after-round-skip.ops (validator 2 faulty; positions:
+validator 0 ↦ 0, 1 ↦ 1, 3 ↦ 2) -/
+def exStalePrefix : List Op :=
+  [.fire 0, .fire 1, .fire 2, .dl 1 0, .dl 1 1, .fire 2, .byz (exPv 0 (some 0) 2),
+   .byz (exPv 0 none 2), .dl 0 5, .dl 1 6, .dl 2 6, .dl 0 3, .dl 0 4, .dl 1 2, .dl 1 4, .dl 2 2,
+   .dl 2 3, .fire 1, .fire 2, .byz (exPc 0 none 2), .dl 1 7, .dl 1 9, .dl 1 10, .fire 1, .dl 2 7,
+   .dl 2 8, .dl 2 10, .fire 2, .dl 2 11, .dl 2 12, .byz (exPv 1 (some 1) 2), .dl 1 14, .dl 1 15,
+   .dl 2 13, .dl 2 15, .byz (exPc 1 none 2), .dl 1 17, .dl 1 18, .fire 1, .dl 2 16, .dl 2 18,
+   .fire 2, .fire 1, .fire 2, .byz (exPv 2 none 2), .dl 0 13, .dl 0 14, .dl 0 15, .dl 0 19, .dl 0 20,
+   .dl 0 21]
+
+def exStaleNet : Net := (Net.init [0, 1, 3]).run exCfg exStalePrefix
+
+/-- … at the synchrony point, after closure -/
+def exStaleClosed : Net := syncRun exCfg exStaleNet []
+
+/-- **the stale lock in the network model**: with one of four validators faulty the net reaches, and
+keeps through the synchrony point and closure, a state in which validator 0 is locked on block 0 and
+validators 1 and 3 on block 1 — validator 0's lock has outlived the polka of round 1 that it holds. -/
+theorem stale_lock_reachable :
+    (exStaleClosed.nodes.map fun nd =>
+      (nd.idx, nd.s.round, nd.s.lockedBlock, hasStaleLock nd.s && !nd.s.halted && nd.s.decided.isNone)) =
+      [(0, 2, some 0, true), (1, 2, some 1, false), (3, 2, some 1, false)] ∧
+    exStaleClosed.closed = true := by
+  decide +kernel
+
+/-- **closure_single_lock is false** of the model (and of the code: same schedule replayed on real
+nodes) -/
+theorem closure_single_lock_fails : ¬ ClosureSingleLock exCfg [0, 1, 3] := by
+  intro h
+  have hp : 3 * faultyPower exCfg.cfg [0, 1, 3] < exCfg.cfg.total := by decide
+  have hw := stale_lock_reachable.1
+  have hlen : exStaleClosed.nodes.length = 3 := by
+    have := congrArg List.length hw; simpa using this
+  obtain ⟨n0, h0⟩ : ∃ y, exStaleClosed.nodes[0]? = some y := ⟨exStaleClosed.nodes[0], List.getElem?_eq_getElem (by omega)⟩
+  obtain ⟨n1, h1⟩ : ∃ y, exStaleClosed.nodes[1]? = some y := ⟨exStaleClosed.nodes[1], List.getElem?_eq_getElem (by omega)⟩
+  have e0 : (exStaleClosed.nodes.map fun nd =>
+      (nd.idx, nd.s.round, nd.s.lockedBlock, hasStaleLock nd.s && !nd.s.halted && nd.s.decided.isNone))[0]? =
+      some (0, 2, some 0, true) := by rw [hw]; rfl
+  have e1 : (exStaleClosed.nodes.map fun nd =>
+      (nd.idx, nd.s.round, nd.s.lockedBlock, hasStaleLock nd.s && !nd.s.halted && nd.s.decided.isNone))[1]? =
+      some (1, 2, some 1, false) := by rw [hw]; rfl
+  rw [List.getElem?_map, h0] at e0
+  rw [List.getElem?_map, h1] at e1
+  simp only [Option.map_some, Option.some.injEq, Prod.mk.injEq] at e0 e1
+  have hl0 : n0.s.halted = false ∧ n0.s.decided = none := by
+    have := e0.2.2.2
+    simp only [Bool.and_eq_true, Bool.not_eq_true', Option.isNone_iff_eq_none] at this
+    exact ⟨this.1.2, this.2⟩
+  -- validators 1 and 3 are live as well (their entry only says that they hold no stale lock)
+  have hl1 : n1.s.halted = false ∧ n1.s.decided = none := by
+    have : (exStaleClosed.nodes[1]?.map fun nd => (nd.s.halted, nd.s.decided)) = some (false, none) := by
+      decide +kernel
+    rw [h1] at this
+    simp only [Option.map_some, Option.some.injEq, Prod.mk.injEq] at this
+    exact this
+  have := h hp exStalePrefix n0 n1 0 1 (List.mem_of_getElem? h0) (List.mem_of_getElem? h1)
+    hl0.2 hl1.2 hl0.1 hl1.1 e0.2.2.1 e1.2.2.1
+  cases this
+
+/-- … and the state violates exactly `NoStaleLock` -/
+theorem witness_violates_no_stale_lock : ¬ NoStaleLock exStaleClosed := by
+  intro h
+  have hw := stale_lock_reachable.1
+  have hlen : exStaleClosed.nodes.length = 3 := by
+    have := congrArg List.length hw; simpa using this
+  obtain ⟨n0, h0⟩ : ∃ y, exStaleClosed.nodes[0]? = some y := ⟨exStaleClosed.nodes[0], List.getElem?_eq_getElem (by omega)⟩
+  have e0 : (exStaleClosed.nodes.map fun nd =>
+      (nd.idx, nd.s.round, nd.s.lockedBlock, hasStaleLock nd.s && !nd.s.halted && nd.s.decided.isNone))[0]? =
+      some (0, 2, some 0, true) := by rw [hw]; rfl
+  rw [List.getElem?_map, h0] at e0
+  simp only [Option.map_some, Option.some.injEq, Prod.mk.injEq] at e0
+  have := e0.2.2.2
+  simp only [Bool.and_eq_true, Bool.not_eq_true', Option.isNone_iff_eq_none] at this
+  have hf := h n0 (List.mem_of_getElem? h0) this.2 this.1.2
+  rw [hf] at this
+  exact absurd this.1.1 (by decide)
+
 /-! ### non-vacuity of the hypotheses above -/
 
 /-- a node state satisfying the hypotheses of `commit_step_waits_for_block`: validator 2 of the
@@ -655,6 +815,19 @@ example : exNode1.proposer exFresh.valRound = 0 ∧
     (run exNode1 exFresh ([Input.proposal ⟨0, 0, -1, 0⟩, Input.blockComplete 0] ++
       (goodVotes 0 0 .precommit [2] ++ goodVotes 0 0 .prevote [0, 2] ++ goodVotes 0 0 .precommit [0]))).decided = some (0, 0) := by
   decide
+
+/-- the hypotheses of `quorum_and_block_decide` hold of the run in which validator 1 goes through
+that good round (from the initial state) -/
+def exGoodRun : List Input :=
+  [.timeout 0 .newHeight, .proposal ⟨0, 0, -1, 0⟩, .blockComplete 0] ++
+    (goodVotes 0 0 .precommit [2] ++ goodVotes 0 0 .prevote [0, 2] ++ goodVotes 0 0 .precommit [0])
+
+example : (run exNode1 .init exGoodRun).halted = false ∧
+    (0 ≤ (run exNode1 .init exGoodRun).commitRound → (run exNode1 .init exGoodRun).step = .commit) ∧
+    maj23Of ((run exNode1 .init exGoodRun).votes.getVoteSet (0 : Nat) .precommit) = some (some 0) ∧
+    (run exNode1 .init exGoodRun).commitRound = 0 ∧
+    (run exNode1 .init exGoodRun).proposalBlock = some 0 ∧
+    (run exNode1 .init exGoodRun).decided = some (0, 0) := by decide
 
 /-- the round-robin schedule of the witness configuration is fair with window 4 -/
 example : FairSchedule exCfg.cfg 4 := by
